@@ -394,22 +394,25 @@ def resize(catalog, ratio=None, psfhelper=None):
     src_mask = np.ones(len(catalog), dtype=bool)
 
     # check to see if the input catalog contains psf information
-    has_psf = getattr(catalog[0], "psf_a", None) is not None
+    psf_a0 = getattr(catalog[0], "psf_a", None)
+    # catalogues read without psf columns carry NaN placeholders
+    has_psf = psf_a0 is not None and bool(np.isfinite(psf_a0))
 
     # If ratio is provided we just the psf by this amount
     if ratio is not None:
         log.info(
             "Using ratio of {0} to scale input source shapes".format(ratio))
 
+        # fractional change of the psf area; zero means nothing to rescale
+        growth = 1 - 1 / ratio ** 2
         for i, src in enumerate(catalog):
             # the new source size is the previous size, convolved with the
             # expanded psf
-            src.a = np.sqrt(
-                src.a ** 2 + (src.psf_a) ** 2 * (1 - 1 / ratio ** 2)
-            )
-            src.b = np.sqrt(
-                src.b ** 2 + (src.psf_b) ** 2 * (1 - 1 / ratio ** 2)
-            )
+            if growth != 0:
+                psf_a = getattr(src, "psf_a", np.nan)
+                psf_b = getattr(src, "psf_b", np.nan)
+                src.a = np.sqrt(src.a ** 2 + psf_a ** 2 * growth)
+                src.b = np.sqrt(src.b ** 2 + psf_b ** 2 * growth)
             # source with funky a/b are also rejected
             if not np.all(np.isfinite((src.a, src.b))):
                 log.info(
